@@ -43,6 +43,7 @@ class SimNet:
         self.on_finished = None             # optional callback(name)
         self.after_step = None              # optional callback(simnet)
         self.wire_failures = []
+        self.halt = False                   # an after_step callback may set it to end the run
         self.trace = None                   # set to [] to keep (seq, step, src, dst, msg, sender cycle)
 
     # ----------------------------------------------------------------- wiring
@@ -178,7 +179,7 @@ class SimNet:
             self._run_action(act)
             if self.after_step:
                 self.after_step(self, act)
-            if self.errors and stop_on_error:
+            if self.halt or (self.errors and stop_on_error):
                 return
         self.bound_hit = True
 
